@@ -73,10 +73,12 @@ def make_mixnet(torch, in_f, out_f, img, ctx, seed):
             self.offset = 0.0   # added to every output (the harness pushes the parameters far out with it)
 
         def forward(self, x, context=None):
+            # handles precision itself: computes in its parameters' dtype, answers in the dtype it was asked in
             b = x.shape[0]
-            out = x.reshape(b, -1) @ self.A + self.offset
+            out = x.reshape(b, -1).to(self.A.dtype) @ self.A + self.offset
             if context is not None and self.C is not None:
-                out = out + context @ self.C
+                out = out + context.to(self.C.dtype) @ self.C
+            out = out.to(x.dtype)
             return out.reshape(b, out_f, H, W) if img else out.reshape(b, out_f)
 
     return MixNet()
@@ -237,6 +239,21 @@ def check_state(st, cls, ctx, seed, libnet=False):
             if not torch.equal(bits(y[:, i]), bits(x[:, i])):
                 fails.append(dict(case, clause="identity_not_bitwise", detail="identity feature %d (mask %d) is not returned bit-for-bit: %s -> %s" % (i, mask[i], x[:, i].flatten()[:4].tolist(), y[:, i].flatten()[:4].tolist())))
                 break
+    # (1a') double-precision data through a layer whose conditioner computes in single precision (and handles the
+    # casts itself): the identity features still come back bit for bit, in the data's dtype
+    if not libnet and not uncond and not bounded and cls != "UMNN":
+        xd = x.double() * (1.0 + 2.0 ** -30)       # bits that single precision cannot hold; -0.0 stays -0.0
+        try:
+            with torch.no_grad():
+                yd = f(xd.clone(), c)[0]
+        except Exception:  # noqa  (mixed precision is not promised to work for every elementwise transform)
+            yd = None
+        if yd is not None:
+            n += 1
+            for i in ident:
+                if yd.dtype != xd.dtype or not torch.equal(bits(yd[:, i]), bits(xd[:, i])):
+                    fails.append(dict(case, clause="identity_not_bitwise", detail="float64 data, float32 conditioner: identity feature %d (mask %d) is not returned bit-for-bit: %s -> %s (%s)" % (i, mask[i], xd[:, i].flatten()[:3].tolist(), yd[:, i].flatten()[:3].tolist(), yd.dtype)))
+                    break
     # (1b) the two directions use the same split / write-back: round trip on generic interior rows
     xr = torch.rand(shape, generator=g) * 0.8 + 0.1 if bounded else torch.rand(shape, generator=g) * 1.2 - 0.6
     with torch.no_grad():
